@@ -977,14 +977,18 @@ def run(tier, seed, replay=None):
             n_core = len(c10_alias.core_rows())
             out.extra["alias_systematic_cases"] = {"core products (env target x spelling; project level x tree location)": n_core,
                                                    "all-pairs cover": len(rows) - n_core}
-            for _ in range(40 if tier == "quick" else 1200):
+            n_sys = len(rows)
+            for _ in range(40 if tier == "quick" else 900):
                 rows.append(c10_alias.rand_row(arng))
             for k, row in enumerate(rows):
                 a = c10_alias.mk_aspec(world.tx, len(specs), row)
                 # quick tier: the hook subprocess vector where $DIPPY_CONFIG names another layer's file (every spelling), on
                 # the level x location rows and on every sixth other case; the in-process oracle, the bash ground truth
                 # and the model on all of them
-                a["hook"] = tier != "quick" or (k < n_core and (row["target"] in ("U", "P") or not row["far"])) or k % 6 == 0
+                if tier == "quick":
+                    a["hook"] = (k < n_core and (row["target"] in ("U", "P") or not row["far"])) or k % 6 == 0
+                else:       # every systematic row, every third random row
+                    a["hook"] = k < n_sys or k % 3 == 0
                 if row["user"] == "noread" and not capdrop_ok:
                     continue
                 specs.append(a)
